@@ -717,7 +717,7 @@ def closure_parts(arg):
 #   E.map_or(D, F)      -> (match E { Some(vx_o) => F(vx_o), None => D })      [F a path]  /  closure |x| B: Some(x) => B
 #   E.map(|x| B)        -> (match E { Some(x) => Some(B), None => None })
 # ------------------------------------------------------------------------------------------------
-def r10_option_unfold(toks, stats, which=("map_or", "map")):
+def r10_option_unfold(toks, stats, which=("map_or", "map", "map_or_else")):
     while True:
         m = match_table(toks)
         hit = -1
@@ -741,6 +741,14 @@ def r10_option_unfold(toks, stats, which=("map_or", "map")):
                 if len(ps) != 1: raise ExtractError("R10: map_or closure arity")
                 arm = T("Some(") + ps[0] + T(") =>") + [Tok("o", "{", None, 0, True)] + body + [Tok("c", "}", None, 0, True)] + T(",")
             new = T("(match") + recv + T("{") + arm + T("None =>") + d + T("})")
+        elif name == "map_or_else":
+            # E.map_or_else(|| D, |x| B) -> (match E { Some(x) => { B }, None => { D } })
+            if len(args) != 2: raise ExtractError("R10: map_or_else arity")
+            cd, cf = closure_parts(args[0]), closure_parts(args[1])
+            if cd is None or cf is None or len(cd[0]) != 0 or len(cf[0]) != 1:
+                raise ExtractError("R10: Option::map_or_else needs two closure literals")
+            new = T("(match") + recv + T("{ Some(") + cf[0][0] + T(") =>") + [Tok("o", "{", None, 0, True)] + cf[1] + [Tok("c", "}", None, 0, True)] \
+                + T(", None =>") + [Tok("o", "{", None, 0, True)] + cd[1] + [Tok("c", "}", None, 0, True)] + T("})")
         else:
             if len(args) != 1: raise ExtractError("R10: map arity")
             cp = closure_parts(args[0])
